@@ -404,8 +404,11 @@ class BaseTemplateFile(BaseTemplate):
             mtime = self.mtime()
 
             if mtime != self._v_last_read:
-                self._v_last_read = mtime
+                # Invalidate first: a concurrent call must not see the
+                # new modification time while the old code is still
+                # flagged as current.
                 self._cooked = False
+                self._v_last_read = mtime
 
         if self._cooked is False:
             body = self.read()
